@@ -583,6 +583,19 @@ def spec_system(name, s, c):
         return [sigma * s[0] - s[1], sigma * s[1] + s[0] + c[0]]
     if name == "lorenz":
         return [10 * (s[1] - s[0]), 28 * s[0] - s[1] - s[0] * s[2] + c[0], s[0] * s[1] - z3.RealVal("8/3") * s[2]]
+    if name == "three_coupled_oscillators":
+        # equation (3.1) of Li et al. 2018 (cited in the module): three oscillators with angular frequencies 1, pi, pi^2; each is a
+        # rotation with its frequency plus growth rate sigma_k; the actuation b enters the second and third oscillator
+        import math
+        r1, r2, r3 = s[0] * s[0] + s[1] * s[1], s[2] * s[2] + s[3] * s[3], s[4] * s[4] + s[5] * s[5]
+        sig = [-r1 + r2 - r3, lift(0.1) - r2, lift(-0.1)]
+        om = [z3.RealVal(1), lift(math.pi), lift(math.pi * math.pi)]
+        out = []
+        for k in range(3):
+            a, b_ = s[2 * k], s[2 * k + 1]
+            out.append(sig[k] * a - om[k] * b_)
+            out.append(sig[k] * b_ + om[k] * a + (c[0] if k > 0 else 0))
+        return out
     raise ValueError(name)
 
 
@@ -592,6 +605,16 @@ def spec_system_float(name, s, c):
         return [sigma * s[0] - s[1], sigma * s[1] + s[0] + c[0]]
     if name == "lorenz":
         return [10 * (s[1] - s[0]), 28 * s[0] - s[1] - s[0] * s[2] + c[0], s[0] * s[1] - (8.0 / 3.0) * s[2]]
+    if name == "three_coupled_oscillators":
+        import math
+        r1, r2, r3 = s[0] ** 2 + s[1] ** 2, s[2] ** 2 + s[3] ** 2, s[4] ** 2 + s[5] ** 2
+        sig = [-r1 + r2 - r3, 0.1 - r2, -0.1]
+        om = [1.0, math.pi, math.pi * math.pi]
+        out = []
+        for k in range(3):
+            out.append(sig[k] * s[2 * k] - om[k] * s[2 * k + 1])
+            out.append(sig[k] * s[2 * k + 1] + om[k] * s[2 * k] + (c[0] if k > 0 else 0.0))
+        return out
     raise ValueError(name)
 
 
@@ -613,7 +636,7 @@ def job_system(name, sd):
         problems.append("kernel writes its inputs / leaves its arrays: " + str([v.label for v in eng.violations]))
     elif not all(isinstance(o, SymReal) or isinstance(o, (int, float)) for o in res["o"]):
         problems.append("not every output entry is written")
-    elif name != "three_coupled_oscillators":
+    else:
         exp = spec_system(name, res["s"], res["c"])
         for i in range(sd):
             common["queries"]["unsat"] += 1
@@ -624,16 +647,13 @@ def job_system(name, sd):
                 if not _tiny_coefficients(d):
                     problems.append(f"equation {i} differs from the published system")
     if problems:
-        if name == "three_coupled_oscillators":
-            return inconclusive(f"{name}: {problems}", **common)
         w = dict(kind="system", name=name, sd=sd, problems=problems)
         bad, info = replay(w)
         w["observed"] = info
         if bad:
             return violated("system_equations", f"dynamic_control/systems/{name}.py", f"{name}: " + "; ".join(problems) + f" {info}", w, validated=1, **common)
         return inconclusive(f"does not replay: {w}", **common)
-    return held(summary=f"{name}: equations equal the published system" if name != "three_coupled_oscillators" else
-                f"{name}: writes all {sd} outputs, reads only, stays in range (equations not compared: no independent source offline)",
+    return held(summary=f"{name}: equations equal the published system",
                 sample=dict(system=name, dims=sd), **common)
 
 
@@ -662,7 +682,7 @@ def job_selftest():
     cases = [dict(kind=k, sd=sd, state=[2.0, 3.0, 5.0][:sd]) for k in ("linear", "quadratic", "cubic") for sd in (2, 3)]
     cases += [dict(kind="peaks", sd=sd, idx=i) for sd in (2, 3) for i in range(3)]
     cases += [dict(kind="ann", sd=sd, cd=cd, layers=list(l)) for (sd, cd, l) in ((2, 1, ()), (3, 2, (2, 2)), (2, 1, (3, 4)), (4, 3, (5, 2, 3)))]
-    cases += [dict(kind="system", name="stuart_landau", sd=2), dict(kind="system", name="lorenz", sd=3)]
+    cases += [dict(kind="system", name="stuart_landau", sd=2), dict(kind="system", name="lorenz", sd=3), dict(kind="system", name="three_coupled_oscillators", sd=6)]
     rnd = random.Random(3)
     for sd in (2, 3):
         for idx in range(3):
